@@ -229,6 +229,7 @@ func TestVerifC13Load(t *testing.T) {
 	nInvalid += c13StrictAll(out, factories, nInvalid)
 	nInvalid += c13RuleCombos(out, factories, nInvalid)
 	nInvalid += c13MistakesBothEntryPoints(out, factories, nInvalid)
+	nInvalid += c13ServiceLegacy(out, factories, nInvalid)
 	for _, c := range vCases(vN(300)) {
 		if c < nInvalid {
 			continue // case indices 0..nInvalid-1 are the corpus of invalid nested values
@@ -1526,6 +1527,90 @@ func c13ServiceProbe(out *vOut, factories otelcol.Factories, first int) int {
 			out.Linef("viol sig=C13/effective/written-key-not-reflected/service::%s wrote=%v got=%v", what, x.v, got)
 		}
 		closeCase()
+	}
+	return n
+}
+
+// ---- service::telemetry written in the v0.2.0 spelling -------------------------------------------------------
+// A logs / metrics / traces section whose strict v0.3.0 decode fails (an OTLP exporter's `headers` written as a MAPPING
+// instead of a list of name/value pairs) is decoded with the v0.2.0 structs and converted field by field
+// (service/telemetry/internal/migration/v0.2.0.go). Every sibling setting of the section is written at once, each with its
+// own value: on that path too each written key must show its own value in the effective configuration (which is the
+// marshalled typed configuration). The same documents with the v0.3.0 spelling are the control.
+func c13ServiceLegacy(out *vOut, factories otelcol.Factories, first int) int {
+	otlp := func(legacy bool) map[string]any {
+		m := map[string]any{"protocol": "http/protobuf", "endpoint": "http://localhost:4318"}
+		if legacy {
+			m["headers"] = map[string]any{"x-verif": "v"}
+		} else {
+			m["headers"] = []any{map[string]any{"name": "x-verif", "value": "v"}}
+		}
+		return m
+	}
+	type sec struct {
+		name   string
+		build  func(legacy bool) map[string]any
+		checks [][]string // key paths below the section whose written value must show
+	}
+	secs := []sec{
+		{"logs", func(l bool) map[string]any {
+			return map[string]any{"level": "debug", "development": true, "encoding": "json", "disable_caller": true, "disable_stacktrace": true,
+				"sampling":     map[string]any{"enabled": false, "initial": 3, "thereafter": 9},
+				"output_paths": []any{"stdout", "/tmp/verif-out.log"}, "error_output_paths": []any{"stderr", "/tmp/verif-err.log", "/tmp/verif-err2.log"},
+				"initial_fields": map[string]any{"field_a": "value_a"},
+				"processors":     []any{map[string]any{"batch": map[string]any{"exporter": map[string]any{"otlp": otlp(l)}}}}}
+		}, [][]string{{"level"}, {"development"}, {"encoding"}, {"disable_caller"}, {"disable_stacktrace"}, {"sampling", "enabled"}, {"sampling", "initial"},
+			{"sampling", "thereafter"}, {"output_paths"}, {"error_output_paths"}, {"initial_fields", "field_a"}}},
+		{"traces", func(l bool) map[string]any {
+			return map[string]any{"level": "detailed", "propagators": []any{"b3", "tracecontext"},
+				"processors": []any{map[string]any{"batch": map[string]any{"exporter": map[string]any{"otlp": otlp(l)}}}}}
+		}, [][]string{{"level"}, {"propagators"}}},
+		{"metrics", func(l bool) map[string]any {
+			return map[string]any{"level": "detailed",
+				"readers": []any{map[string]any{"periodic": map[string]any{"exporter": map[string]any{"otlp": otlp(l)}}}}}
+		}, [][]string{{"level"}}},
+	}
+	n := 0
+	for _, sc := range secs {
+		for _, legacy := range []bool{false, true} {
+			spelling := "v0.3.0"
+			if legacy {
+				spelling = "v0.2.0"
+			}
+			out.Linef("case %d service-telemetry-%s=%s", first+n, spelling, sc.name)
+			out.Linef("op inst id=%s def=- w=-", vHex("service-telemetry-"+spelling+"-"+sc.name))
+			out.Linef("obs eff -")
+			n++
+			root := c13ServiceBase()
+			written := sc.build(legacy)
+			c13SetPath(root["service"].(map[string]any), "telemetry::"+sc.name, written)
+			cfg, err := c13LoadJSON(factories, root)
+			if err != nil {
+				out.Linef("viol sig=C13/load/valid-config-rejected where=service::telemetry::%s/%s err=%s", sc.name, spelling, vHex(err.Error()))
+				out.Linef("end")
+				continue
+			}
+			eff, err := c13EffectiveOf(cfg)
+			if err != nil {
+				out.Linef("viol sig=C13/effective/marshal-error where=service::telemetry::%s/%s", sc.name, spelling)
+				out.Linef("end")
+				continue
+			}
+			for _, p := range sc.checks {
+				want := c13At(written, p)
+				got := c13At(eff["service"], append([]string{"telemetry", sc.name}, p...))
+				if !strings.EqualFold(c13Norm(got), c13Norm(want)) {
+					out.Linef("viol sig=C13/effective/written-key-not-reflected/service-telemetry-%s::%s::%s wrote=%v got=%v", spelling, sc.name, strings.Join(p, "::"), want, got)
+				}
+				out.Linef("stat service_telemetry_written_keys_checked 1")
+			}
+			// the exporter's header must survive the conversion too (name and value)
+			if !strings.Contains(fmt.Sprintf("%v", c13At(eff["service"], []string{"telemetry", sc.name})), "x-verif") {
+				out.Linef("viol sig=C13/effective/written-key-not-reflected/service-telemetry-%s::%s::otlp-headers", spelling, sc.name)
+			}
+			out.Linef("nt")
+			out.Linef("end")
+		}
 	}
 	return n
 }
